@@ -136,8 +136,10 @@ def ekf_driver(d, ns):
         ctl_arg = ", ctl"
     pargs = f"dt, sv{cal_arg}{ctl_arg}"
     A(f"    State m = ExtendedKalmanFilterProcessModel::model({pargs});")
+    A("    const State& cm = m;")
     for s in st:
         A(f'    std::printf("%d model {s} %.17g\\n", p, m.{s}());')
+        A(f'    std::printf("%d cmodel {s} %.17g\\n", p, cm.{s}());')
     A(f"    auto G = ExtendedKalmanFilterProcessModel::process_jacobian({pargs});")
     A(f'    for (int i = 0; i < {n}; ++i) for (int j = 0; j < {n}; ++j) std::printf("%d G %d %d %.17g\\n", p, i, j, G(i, j));')
     A(f"    auto V = ExtendedKalmanFilterProcessModel::control_jacobian({pargs});")
@@ -148,8 +150,11 @@ def ekf_driver(d, ns):
     for s in st:
         A(f'    std::printf("%d px {s} %.17g\\n", p, nx.state.{s}());')
     A(f'    for (int i = 0; i < {n}; ++i) for (int j = 0; j < {n}; ++j) std::printf("%d pP %d %d %.17g\\n", p, i, j, nx.covariance.data(i, j));')
+    A("    const StateAndVariance& cnx = nx;")
     for s in st:
         A(f'    std::printf("%d pPd {s} %.17g\\n", p, nx.covariance.{s}());')
+        A(f'    std::printf("%d cpPd {s} %.17g\\n", p, cnx.covariance.{s}());')
+        A(f'    std::printf("%d cpx {s} %.17g\\n", p, cnx.state.{s}());')
     for key, rs in sorted(d["sensors"]):
         T = typename(key)
         rn = sorted(r for r, _ in rs)
